@@ -1031,6 +1031,8 @@ class _FuncAnalysis:
                         return (ra[0] * rb[0], ra[1] * rb[1])
                     if isinstance(e.op, ast.LShift) and ra[0] >= 0 and 0 <= rb[0] and rb[1] <= 64:
                         return (ra[0] << rb[0], ra[1] << rb[1])
+                    if isinstance(e.op, ast.LShift) and 0 <= rb[0] and rb[1] <= 64:
+                        return (min(ra[0] << rb[1], ra[0] << rb[0]), max(ra[1] << rb[1], ra[1] << rb[0]))
                     if isinstance(e.op, ast.BitOr) and ra[0] >= 0 and rb[0] >= 0:
                         return (0, (1 << max(ra[1].bit_length(), rb[1].bit_length())) - 1)
         if isinstance(e, ast.Call) and call_name(e) == "int.from_bytes" and e.args and isinstance(e.args[0], ast.Subscript) and isinstance(e.args[0].slice, ast.Slice):
@@ -1059,6 +1061,32 @@ class _FuncAnalysis:
             # single assignment local
             defs = [n for n in walk_local(self.fi.node) if (isinstance(n, ast.Assign) and len(n.targets) == 1 and isinstance(n.targets[0], ast.Name) and n.targets[0].id == e.id) or (isinstance(n, ast.NamedExpr) and n.target.id == e.id)]
             others = [n for n in walk_local(self.fi.node) if isinstance(n, (ast.AugAssign, ast.For, ast.AnnAssign)) and any(isinstance(x, ast.Name) and x.id == e.id and isinstance(x.ctx, ast.Store) for x in ast.walk(n))]
+            ov = getattr(self, "_range_override", {})
+            if e.id in ov:
+                return ov[e.id]
+            if len(defs) >= 2 and not others and e.id not in self.params and all(isinstance(d, ast.Assign) for d in defs):
+                # several plain assignments (eg. a value and its sign-corrected version): the union of their ranges; a
+                # definition in terms of the name itself is evaluated over the union of the others
+                def mentions(d) -> bool:
+                    return any(isinstance(x, ast.Name) and x.id == e.id for x in ast.walk(d.value))
+                base = [self.int_range(d.value, ()) for d in defs if not mentions(d)]
+                if base and all(b is not None for b in base):
+                    r0 = (min(b[0] for b in base), max(b[1] for b in base))
+                    rs = [r0]
+                    ok_all = True
+                    for d in defs:
+                        if mentions(d):
+                            self._range_override = {**ov, e.id: r0}
+                            try:
+                                rd = self.int_range(d.value, ())
+                            finally:
+                                self._range_override = ov
+                            if rd is None:
+                                ok_all = False
+                                break
+                            rs.append(rd)
+                    if ok_all:
+                        return (min(r[0] for r in rs), max(r[1] for r in rs))
             if len(defs) == 1 and not others and e.id not in self.params:
                 r = self.int_range(defs[0].value, ())
                 if r is not None:
@@ -1140,9 +1168,16 @@ class _FuncAnalysis:
             return self.site([("ValueError", f"int({at or '?'})"), ("OverflowError", f"int({at or '?'}): infinite float"), ("TypeError", f"int({at or '?'}): no integer conversion")], c, None)
         if name == "float":
             at = self.typ(c.args[0]) if c.args else ""
-            if kinds(at) and kinds(at) <= {"int", "float", "bool"}:
+            if kinds(at) and kinds(at) <= {"bool"}:
                 return set()
-            return self.site([("ValueError", f"float({at or '?'})")], c, None)
+            if kinds(at) and kinds(at) <= {"float", "bool"} and not (isinstance(c.args[0], ast.Name) and c.args[0].id in self.params):
+                return set()  # a computed float; a *parameter* annotated float also takes an int (numeric tower)
+            if kinds(at) and kinds(at) <= {"int", "float", "bool"}:
+                # float(int) overflows beyond the float range (10**400): OverflowError, not ValueError
+                rr = self.int_range(c.args[0], local) if c.args else None
+                ok = f"integer operand within [{rr[0]}, {rr[1]}]" if rr is not None and abs(rr[0]) < 10 ** 300 and abs(rr[1]) < 10 ** 300 else None
+                return self.site([("OverflowError", "float(int) beyond the float range")], c, ok)
+            return self.site([("ValueError", f"float({at or '?'})"), ("OverflowError", "float(int) beyond the float range")], c, None)
         if name in ("bytes", "bytearray"):
             if not c.args:
                 return set()
